@@ -335,6 +335,7 @@ namespace Givaro {
 
         Rep tmp, expo, temp;
         A = this->one;
+        if (this->isOne(phin)) return A; // n == 2
 
         Rep prime(2), Aorder=this->one;
         std::vector<Rep> Lf = aLf, newLf, oldLf;
